@@ -306,6 +306,10 @@ def matching():
     t.append(T('matche_scrutinee_shadowed', [FRESH(['l'], EQ(l, L(P(0), P(1))), MATCH('matche', l, (LI([ANY], l), [EQ(q, l)]), (NIL, [EQ(q, P(2))])))], 'multiset'))
     t.append(T('matcha_scrutinee_shadowed', [FRESH(['l', 'x'], EQ(l, L(P(0), P(1))), EQ(x, P(2)), MATCH('matcha', L(l, x), (L(LI([x], l), ANY), [EQ(q, L(x, l))]), (ANY, [EQ(q, P(2))])))], 'multiset'))
     t.append(T('match_nested_improper_pattern', [MATCH('match', L(P(0), P(1), P(2)), (LI([a], LI([b], tl)), [EQ(q, L(tl, b, a))]))], 'multiset'))
+    t.append(T('match_alternatives_different_names', [FRESH(['y', 'l'], EQ(y, P(2)), OP('conde', EQ(l, L(P(0))), EQ(l, L(P(0), P(1)))), MATCH('match', l, ([L(x, y), L(x)], [EQ(q, L(x, y))])))], 'multiset'))
+    t.append(T('match_alternatives_later_lacks_name', [FRESH(['r', 'l'], EQ(l, L(P(0))), MATCH('match', l, ([L(a, V('r')), L(a)], [EQ(V('r'), P(1))])), EQ(q, V('r')))], 'multiset'))
+    t.append(T('matcha_committed_arm_static_false', [FRESH(['l'], OP('conde', EQ(l, NIL), EQ(l, L(P(0)))), MATCH('matcha', l, (NIL, [FALSE]), (ANY, [EQ(q, P(1))])))], 'multiset'))
+    t.append(T('matchu_committed_arm_static_false', [FRESH(['l'], EQ(l, L(P(0))), MATCH('matchu', l, (L(a), [EQ(a, P(0)), FALSE]), (ANY, [EQ(q, P(1))])), EQ(q, P(2)))], 'multiset'))
     t.append(T('matchu_first_only', [FRESH(['x'], EQ(x, L(P(0), P(1))), MATCH('matchu', x, (LI([h], ANY), [EQ(q, h)]), (LI([ANY, h], ANY), [EQ(q, h)])))], 'multiset'))
     return t
 
@@ -337,6 +341,10 @@ def syntax_forms():
     t.append(T('syn_match_scrutinee_shadowed', [FRESH(['l'], EQ(l, L(P(0), P(1))), MATCH('match', l, (LI([a], l), [EQ(q, L(a, l))])))], 'multiset'))
     t.append(T('syn_twice_closure_fresh', [FRESH(['a', 'b'], EQ(q, L(a, b)), ('twice', REL('pick', a, b, P(0), P(1))))], 'multiset', 40))
     t.append(T('syn_two_invocations', [FRESH(['a', 'b'], EQ(q, L(a, b)), REL('pick', a, b, P(0), P(1)), REL('pick', a, b, P(0), P(1)))], 'multiset', 40))
+    t.append(T('syn_nested_improper_two_heads', [FRESH(['x'], EQ(q, L(LI([P(0), P(1)], x), P(2))), OP('conde', EQ(x, L(P(0))), EQ(x, P(1))))], 'multiset'))
+    t.append(T('syn_nested_improper_three_heads_unify', [FRESH(['x', 'y', 'a'], EQ(L(L(P(0), P(1), P(2), P(0)), y), L(LI([P(0), P(1), x], a), P(1))), EQ(q, L(x, a, y)))], 'multiset'))
+    t.append(T('syn_empty_conjunction_clause', [OP('conde', EQ(q, P(0)), [], EQ(q, P(1)))], 'multiset'))
+    t.append(T('syn_empty_conjunction_only', [OP('conde', []), EQ(q, P(0))], 'multiset'))
     t.append(T('syn_pairs', [FRESH(['x', 'y', 'z'], EQ(z, ('pair', x, P(0))), EQ(z, ('pair', P(1), y)), EQ(q, ('pair', y, x)))], 'multiset'))
     return t
 
@@ -439,6 +447,7 @@ def compound_structs():
     t.append(T('cs_occurs', [FRESH(['x', 'y'], OP('conde', [EQ(x, CMP('Leaf', x)), EQ(q, N(1))], [EQ(x, CMP('Pt', P(0), y)), EQ(y, CMP('Leaf', x)), EQ(q, N(2))],
                                                      [EQ(x, CMP('Node', P(0), SOME(CMP('Leaf', x)))), EQ(q, N(3))], [EQ(x, CMP('Pt', y, y)), EQ(q, N(4))]))], 'multiset'))
     t.append(T('cs_occurs_through_list_field', [FRESH(['x', 'y'], OP('conde', [EQ(y, L(P(1), x)), EQ(x, CMP('Wrap', y)), EQ(q, N(1))], [EQ(y, LI([P(1)], x)), EQ(CMP('Pt', P(0), y), x), EQ(q, N(2))], [EQ(y, L(x)), EQ(x, CMP('Pt', CMP('Leaf', y), P(0))), EQ(q, N(3))], [EQ(y, L(P(1))), EQ(x, CMP('Wrap', y)), EQ(q, N(4))]))], 'multiset'))
+    t.append(T('cs_occurs_list_literal_field', [FRESH(['x'], OP('conde', [EQ(x, CMP('Wrap', L(P(0), x))), EQ(q, N(1))], [EQ(CMP('Pt', P(0), LI([P(1)], x)), x), EQ(q, N(2))], [EQ(x, CMP('Wrap', L(P(0), L(x)))), EQ(q, N(3))], [EQ(x, CMP('Wrap', L(P(0)))), EQ(q, N(4))]))], 'multiset'))
     t.append(T('cs_walk_star_nested', [FRESH(['x', 'y', 'z'], EQ(q, CMP('Pt', x, CMP('Leaf', y))), EQ(x, L(y, P(0))), EQ(y, CMP('Wrap', z)), EQ(z, P(1)))], 'multiset'))
     t.append(T('cs_walk_star_option', [FRESH(['x', 'y'], EQ(q, CMP('Node', x, SOME(CMP('Leaf', y)))), EQ(y, L(x)), EQ(x, P(0)))], 'multiset'))
     t.append(T('cs_reify_free_fields', [FRESH(['x', 'y'], EQ(q, CMP('Pt', x, CMP('Leaf', y))), NE(x, P(0)))], 'multiset'))
@@ -588,6 +597,8 @@ def permutations_family(max_perms=6):
         ('ph', ['x'], [EQ(q, x), INFD(x, [1, 3, 5]), INFDR(x, 2, 4)]),
         ('pi', ['x', 'y'], [EQ(q, L(x, y)), EQ(x, P(0)), EQ(y, P(1)), REL('distinctfd', L(x, y))]),
         ('pj', ['x', 'y'], [EQ(q, L(x, y)), INFD(x, [1, 2]), EQ(L(x, y), L(y, P(0)))]),
+        ('pl', ['x', 'y', 'a', 'b'], [EQ(q, L(x, y)), REL('ltefd', x, y), EQ(x, V('a')), EQ(y, V('b')), EQ(V('a'), P(0)), EQ(V('b'), P(1))]),
+        ('pm', ['x', 'y', 'a'], [EQ(q, L(x, y)), REL('diseqfd', x, y), EQ(x, V('a')), EQ(V('a'), P(0)), EQ(y, P(1))]),
         ('pk', ['x', 'y'], [EQ(q, L(x, y)), EQ(x, P(0)), EQ(y, P(1)), REL('ltfd', x, y), REL('diseqfd', x, P(2))]),
     ]
     for name, vs, goals in bases:
@@ -633,6 +644,8 @@ def fairness():
     t.append(T('fair_conda_never_head', [OP('conde', OP('conda', [REL('never'), EQ(q, P(1))]), EQ(q, P(0)))], 'covers', 1))
     t.append(T('fair_condu_nevero_head', [OP('conde', EQ(q, P(0)), OP('condu', [REL('nevero', q), EQ(q, P(2))]))], 'covers', 1))
     t.append(T('fair_onceo_slow_head', [OP('conde', ('onceo', [REL('always'), REL('member', q, L(P(0), P(1)))]), EQ(q, P(2)))], 'covers', 2))
+    t.append(T('fair_loop_body_diverges_after_answer', [('loop', [OP('conde', REL('never'), EQ(q, P(0)))])], 'covers', 3))
+    t.append(T('fair_loop_body_infinite_and_finite', [('loop', [OP('conde', [('loop', [EQ(q, P(0))])], EQ(q, P(1)))])], 'covers', 8))
     t.append(T('fair_nested', [OP('conde', OP('conde', REL('never'), [REL('always'), EQ(q, P(0))]), EQ(q, P(1)))], 'covers', 6))
     return t
 
